@@ -167,6 +167,7 @@ def run_serve_aio(cfg: Dict[str, Any], programs: Dict[str, list],
     try:
         async def main() -> None:
             env = Env()
+            res.config = env.config  # the user's Config object, as the worker leaves it
             res.log = env.log
             res.app = env.app
             try:
@@ -328,6 +329,7 @@ def run_serve_trio(cfg: Dict[str, Any], programs: Dict[str, list],
         async with trio.open_nursery() as nursery:
             watch.scope = nursery.cancel_scope
             env = Env(nursery)
+            res.config = env.config  # the user's Config object, as the worker leaves it
             res.log = env.log
             res.app = env.app
             try:
